@@ -8,14 +8,18 @@ from .. import genohmm as G
 from ..coqeval import eval_shards, parse_eval_results
 
 RULE = ("core: seeded read matrices (1..6 reads, 2..6 columns, alleles 0/1, qualities from {0,10,20,30,7,13}, reads with "
-        "gaps (BLANK entries), optionally columns no read covers, up to 10 columns with few reads so that the sqrt "
-        "check-pointing keeps only every 2nd/3rd backward column and re-computes the others), priors uniform / 1/3 / "
+        "gaps (BLANK entries), optionally columns no read covers, up to 10 columns with few reads, and long "
+        "matrices of 9-20 columns (<= 12 reads) with NON-uniform coverage profiles (per-column coverage 0..4 in short "
+        "segments, dips next to peaks, reads of varying length) so that the sqrt check-pointing keeps only every "
+        "2nd/3rd/4th backward column and re-computes the others from wide and narrow ones), priors uniform / 1/3 / "
         "dyadic / unnormalised-skewed, recombination costs from {0,1,3,10,20,30}; single individuals, trios, quartets "
         "(two children); plus the hand-made matrices of tests/test_genotyping.py. The real GenotypeDPTable runs in a "
         "child process; its likelihoods (doubles -> exact rationals) are compared inside Coq, relative tolerance 1e-9, "
         "with (L1) the plain brute-force posterior over (bipartition, transmission path, assignment path) on tiny "
         "instances and its per-bipartition chain form on all (both proved equal to posterior_spec, C08_spec_variants) "
-        "and that each triple sums to one, and (L2) with the faithful model fb_run of the scaled, projected, "
+        "and that each triple sums to one (for matrices with many reads, where 2^#reads bipartitions are too many, L1 is "
+        "evaluated through the theorem C08_posterior_exact: fb_run of a well-formed instance IS posterior_spec), a crashed "
+        "child process is a violation (core:crash, instance = replay), and (L2) with the faithful model fb_run of the scaled, projected, "
         "check-pointed forward-backward pass. CLI: `whatshap genotype` on synthetic reference/VCF/BAM data (single "
         "sample; trio with PED; 3-4 unrelated samples with --sample selecting every position subset (first, middle, "
         "last, pairs, all); trio plus unrelated extra VCF columns before/after/inside the family with --ped "
@@ -46,7 +50,7 @@ TRUSTED = [
     "the prior genotyper (compute_genotypes, first pass of `whatshap genotype`) is outside the property and not modelled: "
     "its output enters as the recorded priors; read extraction/selection of the CLI is not modelled (the recorded DP "
     "instance is the model's input); VCF float formatting (6 significant digits) and python's 10**x used to read GL back "
-    "are trusted canonicalisation: tolerance 1e-4 (relative) on GL-derived values; exact model values are rounded to 80 "
+    "are trusted canonicalisation: tolerance 1e-4 (relative) on GL-derived values (2e-4 / 2e-3 for likelihoods below 1e-10 / 1e-100, whose GL has only 4 / 3 decimals); exact model values are rounded to 80 "
     "significant bits (qround) before the slack-tolerant GT/GQ rules are evaluated on them",
     "log10/round in the GQ rule are characterised by exact rational inequalities (n-1/2 <= -10 log10 m <= n+1/2 <-> "
     "10^-(2n+1) <= m^20 <= 10^-(2n-1)); this equivalence is mathematics outside Coq (no Reals in this development)",
@@ -85,12 +89,20 @@ Definition L1plain (cs : inst bigQ * seq (seq (seq Q))) : bool :=
   let sp := spec_plain cs.1 in tab_close (fun c ind g => BigQ.to_Q (sp c ind g)) cs.1 cs.2.
 Definition L1chain (cs : inst bigQ * seq (seq (seq Q))) : bool :=
   let sp := spec_chain cs.1 in tab_close (fun c ind g => BigQ.to_Q (sp c ind g)) cs.1 cs.2.
+(* L1 through the theorem C08_posterior_exact: for a well-formed instance whose run returns Some, fb_run IS
+   posterior_spec; used where even the chain form (2^#reads bipartitions) is too large to evaluate *)
+Definition L1thm (cs : inst bigQ * seq (seq (seq Q))) : bool := L2 cs.
 Definition L1sum (cs : inst bigQ * seq (seq (seq Q))) : bool :=
   all (fun row => all (fun l => qclose tol (foldr Qplus 0%Q l) 1%Q) row) cs.2.
 (* CLI level. case = (instance recorded from the CLI, threshold, calls) with
    call = (column, individual, GT (None = ./.), GQ (None = .), 10^GL as rationals) *)
 Definition cli_tol : Q := (1 # 10000)%Q.
 Definition call_t := (nat * nat * option nat * option Z * seq Q)%type.
+(* VCF floats carry 6 significant digits: a GL of magnitude >= 10 (>= 100) has only 4 (3) decimals, i.e. the value
+   10^GL read back has relative error up to 1.2e-4 (1.2e-3) *)
+Definition gl_tol (l : Q) : Q :=
+  if Qle_bool (1 # 10000000000)%Q l then cli_tol
+  else if Qle_bool (Qpower (1 # 10)%Q 100) l then (2 # 10000)%Q else (2 # 1000)%Q.
 (* L1 on the output alone: GL is a distribution, GT its unique maximum above the threshold or ./., GQ the
    phred-scaled mass of the other genotypes *)
 Definition call_L1 (thr : Q) (cl : call_t) : bool :=
@@ -107,7 +119,7 @@ Definition CLI_L1 (cs : inst bigQ * Q * seq call_t) : bool := all (call_L1 cs.1.
 Definition call_L2 (f : nat -> nat -> nat -> Q) (thr : Q) (cl : call_t) : bool :=
   let: (c, ind, gt, gq, p) := cl in
   let l := [seq qround (f c ind g) | g <- iota 0%nat 3%nat] in
-  (size p == 3%nat) && all (fun g => qclose cli_tol (nth 0%Q p g) (nth 0%Q l g)) (iota 0%nat 3%nat) &&
+  (size p == 3%nat) && all (fun g => qclose (gl_tol (nth 0%Q l g)) (nth 0%Q p g) (nth 0%Q l g)) (iota 0%nat 3%nat) &&
   ((gt == call_gt l thr) || gt_ok tol l thr gt) &&
   match gt, gq with
   | Some g, Some q => gq_rule_tol tol (other_mass l g) q
@@ -141,7 +153,7 @@ Definition wcall_L2 (thr : Q) (cl : wcall_t) : bool :=
   match l with
   | Some l' =>
       (size l' == 3%nat) &&
-      (if p is Some p' then (size p' == 3%nat) && all (fun g => qclose cli_tol (nth 0%Q p' g) (nth 0%Q l' g)) (iota 0%nat 3%nat)
+      (if p is Some p' then (size p' == 3%nat) && all (fun g => qclose (gl_tol (nth 0%Q l' g)) (nth 0%Q p' g) (nth 0%Q l' g)) (iota 0%nat 3%nat)
        else false) &&
       ((gt == call_gt l' thr) || gt_ok tol l' thr gt) &&
       match gt, gq with
@@ -266,6 +278,13 @@ def gen_core(ctx):
     for label, kw, count, plain in plan:
         for _ in range(count):
             out.append((label, G.make_instance(rng, **kw), plain))
+    # long matrices (9-20 columns) with non-uniform coverage profiles: check-pointing with re-computation
+    for _ in range(ctx.n(30, 600)):
+        out.append(("single-profile", G.make_profile_instance(rng, nind=1, trios=()), False))
+    for _ in range(ctx.n(3, 40)):
+        out.append(("trio-profile", G.make_profile_instance(rng, nind=3, trios=trio, min_cols=9, max_cols=11, max_reads=6,
+                                                            levels=(0, 1, 1, 2, 3), quals=nice["quals"], prior_mode="nice"),
+                    False))
     return out
 
 
@@ -290,7 +309,13 @@ def check_core(ctx, labelled, tag="core"):
         ctx.count(G.inst_key(inst), nontrivial=nontrivial(inst))
         term = case_term(inst, r["ok"])
         cost = cost_estimate(inst)
-        checks = [("L2", cost), ("L1chain", cost), ("L1sum", 1)]
+        ctx.tally(f"{tag}.checkpoint-profile", 1 if G.checkpoint_profile(inst) else 0)
+        nr = len(inst["reads"])
+        if nr <= (5 if label.endswith("-profile") else 8) and not (label == "trio-profile" and nr > 3):
+            checks = [("L2", cost), ("L1chain", cost * (1 + 2 ** max(0, nr - 6) // 8)), ("L1sum", 1)]
+        else:
+            # one evaluation of fb_run serves as L2 and, through the theorem, as L1
+            checks = [("L1thm", cost), ("L1sum", 1)]
         if plain:
             checks.append(("L1plain", cost * 4))
         for fn, cst in checks:
@@ -301,6 +326,8 @@ def check_core(ctx, labelled, tag="core"):
         raise RuntimeError("coq evaluation failed: " + errors[0])
     for (rec, fn), ok in zip(meta, res):
         rec["ok"][fn] = ok
+        if fn == "L1thm":
+            rec["ok"]["L2"] = ok
     return records
 
 
@@ -309,7 +336,7 @@ def report_core(ctx, records, search=True):
     for rec in records:
         ok = rec["ok"]
         inst = rec["inst"]
-        for fn in ("L1plain", "L1chain"):
+        for fn in ("L1plain", "L1chain", "L1thm"):
             if ok.get(fn) is False:
                 ctx.violation("core:posterior",
                               f"genotype likelihoods differ from the HMM posterior ({fn}) by more than 1e-9 relative on "
@@ -727,7 +754,7 @@ def run(ctx):
     for rec in records[:2] + records[-3:]:
         ctx.sample({"inst": rec["inst"], "impl": rec["impl"].get("ok"), "checks": rec["ok"]})
     report_core(ctx, records)
-    ctx.extra["core_checks"] = {k: sum(1 for r in records if k in r["ok"]) for k in ("L2", "L1chain", "L1plain", "L1sum")}
+    ctx.extra["core_checks"] = {k: sum(1 for r in records if k in r["ok"]) for k in ("L2", "L1chain", "L1thm", "L1plain", "L1sum")}
     check_cli(ctx, ctx.n(20, 160))
 
 
